@@ -36,11 +36,28 @@ def _worker(job):
         c = group[index]
         timeout = 10000 if tier == "quick" else 60000
         r = verify(c, contracts=every, timeout_ms=timeout)
+        carved = []
+        if kind != "canary" and any(ob["status"] != "unsat" for ob in r.obligations.values()):
+            # known findings with a region predicate: re-prove the same obligations with the listed regions carved
+            # out of the precondition; what still fails is a new violation, what now holds is the known finding
+            regs = [f for f in load_findings() if f.get("status", "open") == "open" and f.get("function") == c.target
+                    and f.get("region") in getattr(c, "regions", {})]
+            if regs:
+                c.excluded = tuple(f["region"] for f in regs)
+                r2 = verify(c, contracts=every, timeout_ms=timeout)
+                c.excluded = ()
+                for name, ob in r.obligations.items():
+                    if ob["status"] != "unsat" and r2.obligations.get(name, {"status": "unsat"})["status"] == "unsat" and not r2.unsupported and not r2.error:
+                        carved.append(dict(obligation=name, regions=[f["id"] for f in regs], first_status=ob["status"]))
+                if carved:
+                    keep_models = {n: r.obligations[n] for n in r.obligations}
+                    r = r2
+                    r.first_run = keep_models
         out = dict(target=c.target, label=getattr(c, "label", c.target), module=modname, kind=kind, paths=r.paths,
                    post_paths=r.post_paths, unsupported=r.unsupported, error=r.error, time=r.time,
                    hashes={f"{k[0]}:{k[1]}": v for k, v in r.source_hashes.items()},
                    models_used=sorted(r.models_used), trusted=list(getattr(c, "trusted", [])),
-                   contracts_used=sorted(r.contracts_used), obligations={}, samples=[], regions=[])
+                   contracts_used=sorted(r.contracts_used), obligations={}, samples=[], regions=carved)
         for name, ob in r.obligations.items():
             o = dict(status=ob["status"], kind=ob["kind"], queries=ob["queries"], time=round(ob["time"], 4),
                      detail=ob["detail"][:2000], unknown=ob["unknown_reasons"][:2], replays=[])
@@ -146,6 +163,25 @@ def main(argv=None):
             undecided.append(f"{label}: outside the supported subset: {r['unsupported'][:3]}")
         if r["post_paths"] == 0 and not r["unsupported"]:
             failures.append(f"{label}: vacuous - no path reaches a postcondition (contradictory precondition?)")
+        for cv in r.get("regions", []):
+            for fid in cv["regions"]:
+                kf = next((f for f in findings if f["id"] == fid), None)
+                if kf is None:
+                    continue
+                still = run_witness(kf)
+                extra = sorted(set((still or {}).get("cases", [])) - set(kf.get("cases", (still or {}).get("cases", []))))
+                if still and extra:
+                    # the witness scenario now fails in cases the finding does not list: a different violation
+                    rfile = os.path.join(ROOT, "replays", pid, _safe(f"{r['target']}__{cv['obligation']}__new_cases") + ".json")
+                    json.dump(dict(property=pid, obligation=f"{pid}/{r['target']}/{cv['obligation']}", function=r["target"],
+                                   status="failing cases beyond the recorded known finding", new_cases=extra, replays=[still]),
+                              open(rfile, "w"), indent=1, default=str)
+                    violations.append((f"{pid}/{r['target']}/{cv['obligation']}", rfile, True))
+                if still:
+                    matched_findings.add(fid)
+                    known_lines.append((kf, f"{pid}/{r['target']}/{cv['obligation']}", still))
+                else:
+                    print(f"note: finding {fid} is listed but its witness no longer fails (stale entry)")
         for name, o in r["obligations"].items():
             full = f"{pid}/{r['target']}/{name}"
             n_obl += 1
@@ -304,6 +340,19 @@ def match_finding(findings, target, clause, replay, ob):
         except Exception:   # noqa
             continue
     return None
+
+
+def run_witness(finding):
+    """re-run the recorded witness of a known finding on the real code; returns the replay report if it still fails"""
+    w = finding.get("witness")
+    if not w:
+        return {"note": "no witness recorded"}
+    try:
+        mod = importlib.import_module(w["module"])
+        rep = getattr(mod, w["function"])(*w.get("args", []))
+        return rep if rep.get("failed") else None
+    except Exception:   # noqa
+        return {"error": traceback.format_exc()[-800:], "failed": ["witness crashed"]}
 
 
 def replay_file(path):
